@@ -112,6 +112,11 @@ def invertOp : List Ent → List Ent
   | b :: t :: sides => t :: b :: sides.map reverseE
   | ch => ch
 
+/-- what reading `.parts` does to the node's attribute: `InterpolatedCurveBase.parts` invalidates the cached
+    interpolation function (attribute 1 = cache valid, 0 = must be rebuilt from the point array on next use);
+    no other entity has such a side effect -/
+def touchAttr (k : Kind) (a : Rat) : Rat := if k == .icurve then 0 else a
+
 mutual
 /-- a method call `e.translate/rotate/scale/mirror` with an explicit origin: recursion into the parts, then the
     entity's own override -/
@@ -121,7 +126,7 @@ def applyE (t : RT) : Ent → Heap → Ent × Heap
   | .arr is, h => (.arr is, is.foldl (fun h i => h.modify i t.pt) h)
   | .node k a ch, h =>
       let r := applyL t ch h
-      (.node k a (if t.isMirror && k == .op then invertOp r.1 else r.1), r.2)
+      (.node k (touchAttr k a) (if t.isMirror && k == .op then invertOp r.1 else r.1), r.2)
 /-- `for component in self.parts: component.<method>(…)` -/
 def applyL (t : RT) : List Ent → Heap → List Ent × Heap
   | [], h => ([], h)
@@ -237,7 +242,7 @@ def transformStep (t : Tr) (oc : Option V3) (s : Ent × Heap) : Option (Ent × H
   match s.1 with
   | .node k a ch =>
       let r := applyL rt ch s.2
-      some (.node k a r.1, r.2)
+      some (.node k (touchAttr k a) r.1, r.2)
   | leaf => some (applyE rt leaf s.2)
 
 def runSteps (viaMethod : Bool) (ts : List (Tr × Option V3)) (s : Ent × Heap) : Option (Ent × Heap) :=
@@ -278,6 +283,39 @@ end
 def copy (e : Ent) (h : Heap) : Ent × Heap :=
   let r := copyE e ⟨[], h⟩
   (r.1, r.2.heap)
+
+/-! ### the cached interpolation function of an `InterpolatedCurveBase` -/
+
+/-- `array` rows and the rows the cached function was built from (`none` = invalidated) -/
+structure ICurve where
+  pts : List V3
+  cache : Option (List V3)
+  deriving Repr
+
+/-- evaluating the curve (`function(t)`, `discretize`, `center`, `length`): rebuilds the function from the
+    current rows when it is invalid; returns the rows the evaluation is based on -/
+def ICurve.eval (c : ICurve) : List V3 × ICurve :=
+  match c.cache with
+  | some q => (q, c)
+  | none => (c.pts, { c with cache := some c.pts })
+
+/-- reading `.parts` -/
+def ICurve.parts (c : ICurve) : ICurve := { c with cache := none }
+
+/-- one element of `curve.transform([...])` as coded: the centre (an evaluation) is taken *before* the loop over
+    `.parts`, then the parts are read (invalidating the function) and the rows are mapped;
+    `g ctr` is the map with its default origin resolved to `ctr` -/
+def ICurve.transformStep (g : V3 → V3 → V3) (c : ICurve) : ICurve :=
+  let r := c.eval
+  let ctr := avg r.1
+  let c2 := r.2.parts
+  { c2 with pts := c2.pts.map (g ctr) }
+
+/-- the order a "lazy centre" variant would use: parts first, centre (re-validating from the old rows) second -/
+def ICurve.transformStepLazy (g : V3 → V3 → V3) (c : ICurve) : ICurve :=
+  let c1 := c.parts
+  let r := c1.eval
+  { r.2 with pts := r.2.pts.map (g (avg r.1)) }
 
 /-! ### line protocol -/
 
